@@ -22,3 +22,24 @@ def rowan_import_without_string(op, impl, model, args):
 def rowan_bump_at_end(op, impl, model, args):
     """a token is bumped although the input is exhausted: bump_remap's assert_ne (parser.rs:174)"""
     return _tree_panic(op, impl) and "already at end" in impl["panic"]
+
+
+def jsformat_column_one_too_large(op, impl, model, args):
+    """JsFormat (`at desc (path:line:column)`) prints CodeLocation.column as it is: the 1-based column
+    plus one (CompactFormat subtracts the one).  Matches only loc.js cases in which every frame has
+    the reference line and, where a column is demanded, exactly the reference column + 1."""
+    if op.get("op") != "loc.js" or not isinstance(impl, dict) or not isinstance(model, dict):
+        return False
+    got, ref = impl.get("pos"), (model.get("spec") or {}).get("pos")
+    if not isinstance(got, list) or not isinstance(ref, list) or len(got) != len(ref) or not got:
+        return False
+    for g, r in zip(got, ref):
+        if not (isinstance(g, list) and isinstance(r, list) and len(g) == 2 and len(r) == 2):
+            return False
+        if g[0] != r[0]:
+            return False
+        if (g[1] is None) != (r[1] is None):
+            return False
+        if g[1] is not None and g[1] != r[1] + 1:
+            return False
+    return True
